@@ -70,15 +70,33 @@ theorem filter_digits (ds : List Char) (h : ∀ x ∈ ds, IsDig x) : ds.filter (
   obtain ⟨k, hk, rfl⟩ := h x hx
   simpa using (dig_ne k hk).2.2.1
 
-/-- the base detection of `parseInt` on a decimal literal without a leading zero -/
-theorem base_digits (c : Char) (r : List Char) (h0 : c = '0' → r = []) :
-    (match c :: r with
-      | '0' :: c' :: r' =>
-        if c' = 'x' ∨ c' = 'X' then (16, r')
-        else if c' = 'b' ∨ c' = 'B' then (2, r')
-        else if c' = 'o' ∨ c' = 'O' then (8, r')
-        else (8, c' :: r')
-      | _ => (10, c :: r)) = (10, c :: r) := by
+/-- the sign detection of `parseInt` -/
+def signSplit (s : List Char) : Bool × List Char :=
+  match s with
+  | '-' :: r => (true, r)
+  | '+' :: r => (false, r)
+  | _ => (false, s)
+
+/-- the base detection of `parseInt` -/
+def baseSplit (s : List Char) : Nat × List Char :=
+  match s with
+  | '0' :: c :: r =>
+    if c = 'x' ∨ c = 'X' then (16, r)
+    else if c = 'b' ∨ c = 'B' then (2, r)
+    else if c = 'o' ∨ c = 'O' then (8, r)
+    else (8, c :: r)
+  | _ => (10, s)
+
+theorem parseInt_eq (s : List Char) :
+    parseInt s =
+      (let a := signSplit s
+       let b := baseSplit a.2
+       let n := (b.2.filter (· ≠ '_')).foldl (fun acc c => acc * b.1 + digitOf c) 0
+       if a.1 then (if n ≤ 9223372036854775808 then some (-(Int.ofNat n)) else none)
+       else (if n ≤ 9223372036854775807 then some (Int.ofNat n) else none)) := rfl
+
+theorem baseSplit_digits (c : Char) (r : List Char) (h0 : c = '0' → r = []) : baseSplit (c :: r) = (10, c :: r) := by
+  unfold baseSplit
   split
   · rename_i c' r' heq
     injection heq with h1 h2
@@ -87,42 +105,38 @@ theorem base_digits (c : Char) (r : List Char) (h0 : c = '0' → r = []) :
     cases h2
   · rfl
 
+theorem signSplit_dig (c : Char) (r : List Char) (n1 : c ≠ '-') (n2 : c ≠ '+') : signSplit (c :: r) = (false, c :: r) := by
+  unfold signSplit
+  split
+  · rename_i r' heq; injection heq with h1 _; exact absurd h1 n1
+  · rename_i r' heq; injection heq with h1 _; exact absurd h1 n2
+  · rfl
+
 theorem parseInt_pos (c : Char) (r : List Char) (hc : IsDig c) (hr : ∀ x ∈ r, IsDig x) (h0 : c = '0' → r = []) :
     parseInt (c :: r) =
       if decValue (c :: r) ≤ 9223372036854775807 then some (Int.ofNat (decValue (c :: r))) else none := by
-  obtain ⟨k, hk, rfl⟩ := hc
-  obtain ⟨n1, n2, _, _⟩ := dig_ne k hk
-  unfold parseInt
-  have e1 : (match Char.ofNat (48 + k) :: r with
-      | '-' :: r' => (true, r')
-      | '+' :: r' => (false, r')
-      | _ => (false, Char.ofNat (48 + k) :: r)) = (false, Char.ofNat (48 + k) :: r) := by
-    split
-    · rename_i r' heq; injection heq with h1 _; exact absurd h1 n1
-    · rename_i r' heq; injection heq with h1 _; exact absurd h1 n2
-    · rfl
-  simp only [e1, base_digits _ _ h0]
-  rw [filter_digits _ (by
+  have hall : ∀ x ∈ c :: r, IsDig x := by
     intro x hx
     rcases List.mem_cons.mp hx with rfl | hx
-    · exact ⟨k, hk, rfl⟩
-    · exact hr x hx)]
+    · exact hc
+    · exact hr x hx
+  obtain ⟨k, hk, rfl⟩ := hc
+  obtain ⟨n1, n2, _, _⟩ := dig_ne k hk
+  rw [parseInt_eq, signSplit_dig _ _ n1 n2]
+  simp only [baseSplit_digits _ _ h0, filter_digits _ hall]
   rfl
 
 theorem parseInt_neg (c : Char) (r : List Char) (hc : IsDig c) (hr : ∀ x ∈ r, IsDig x) (h0 : c = '0' → r = []) :
     parseInt ('-' :: c :: r) =
       if decValue (c :: r) ≤ 9223372036854775808 then some (-(Int.ofNat (decValue (c :: r)))) else none := by
-  unfold parseInt
-  have e1 : (match '-' :: c :: r with
-      | '-' :: r' => (true, r')
-      | '+' :: r' => (false, r')
-      | _ => (false, '-' :: c :: r)) = (true, c :: r) := rfl
-  simp only [e1, base_digits _ _ h0]
-  rw [filter_digits _ (by
+  have hall : ∀ x ∈ c :: r, IsDig x := by
     intro x hx
     rcases List.mem_cons.mp hx with rfl | hx
     · exact hc
-    · exact hr x hx)]
+    · exact hr x hx
+  have e1 : signSplit ('-' :: c :: r) = (true, c :: r) := rfl
+  rw [parseInt_eq, e1]
+  simp only [baseSplit_digits _ _ h0, filter_digits _ hall]
   rfl
 
 /-- `parseInt` inverts `intStr` on the int64 range -/
